@@ -120,7 +120,7 @@ Definition ops : list op := [
   {| op_params := [
       {| p_doc := DStr; p_tx := true |} (* exchange : str *);
       {| p_doc := DBool; p_tx := true |} (* if_unused : bool *)];
-     op_guards := [(0%nat, GString)];
+     op_guards := [(0%nat, GString); (1%nat, GBool)];
      op_guards_first := true |};
   (* exchange.bind *)
   {| op_params := [
